@@ -26,6 +26,9 @@ package keeper
 
 //@ func (k Keeper) UpdatePriceList
 //@   property C17
+//@   modular
+//@   modifies market
+//@   ensures #c17-frame: forall j :: j != id ==> k.GetTwa(ctx, j) == old(k.GetTwa(ctx, j))
 //@   let t0 = k.GetTwa(ctx, id).0
 //@   let f0 = k.GetTwa(ctx, id).1
 //@   requires twaBatch >= 1 && twaBatch < pow2(31) && height() >= 1
@@ -75,3 +78,15 @@ package keeper
 //@   ensures #no-asset-error: !af ==> err != nil
 //@   ensures #value: err == nil ==> price == decQuo(decMul(amt * ONE, t0.Twa * ONE), a0.Decimals * ONE)
 //@   ensures #ok-iff: af && f0 && t0.IsPriceActive && a0.Decimals != 0 ==> err == nil
+
+// discOK: the outage marker of a record is either "not in an outage" (-1) or the height (>= 1) of the first zero sample.
+//@ pred discOK(t): t.DiscardedHeightDiff == -1 || t.DiscardedHeightDiff >= 1
+
+//@ func (k Keeper) GetAllTwa
+//@   property C17
+//@   modular
+//@   modifies nothing
+//@   requires forall i :: k.GetTwa(ctx, i).1 ==> discOK(k.GetTwa(ctx, i).0)
+//@   nopanic
+//@   loop 0 invariant #elems: forall j :: 0 <= j && j < len(twa) ==> discOK(twa[j])
+//@   ensures #elems: forall j :: 0 <= j && j < len(twa) ==> discOK(twa[j])
